@@ -40,6 +40,8 @@ def run_history(case, rec, m, quits, root, u, label_cls=()):
         cls.append('later_cycle_after_markov_quit')
     if sm.get('neighbour_runs'):
         cls.append('neighbour_session_between_runs')
+    if sm.get('separate_processes'):
+        cls.append('runs_in_separate_processes')
     rec.case({'quits': quits, 'runs': sm['runs'], 'U': len(u.lines),
               'markov_segments': [(s, e) for s, e, mk, _ in segments(u) if mk]}, inside > 0, cls, key=[m, quits])
 
@@ -127,8 +129,33 @@ def run_regress(rec, seed, shard, nshards, tier):
     prop_hist(F15_CASE, rec)
 
 
+@st.composite
+def process_cases(draw):
+    c = draw(hist_cases())
+    c['quits'] = c['quits'][:2]
+    if draw(st.booleans()):
+        # many initial n-grams on ONE level: whatever order the loader gives them has to be the same in the process that resumes
+        k = draw(st.integers(4, 6))
+        al = list('abcdef')[:k]
+        om = {'ngram': 2, 'alphabet': al, 'ip': [[0, x] for x in al], 'ep': [[0, x] for x in al], 'cp': [[1, x + y] for x in al for y in al],
+              'ln': [10, 0] + [10] * 19}
+        c['model'] = {'encoding': 'utf-8', 'uuid': 'c15-ips', 'vars': {'D1': [[0.6, ['1']], [0.4, ['2']]]}, 'base': [['M', 0.6], ['D1', 0.4]], 'omen': om,
+                      'm_levels': [[1, 0.5]], 'keyspace': [[1, k * k]]}
+        c['quits'] = [draw(st.integers(2, k * k - 1))] + ([draw(st.integers(1, 10))] if draw(st.booleans()) else [])
+        c.pop('sessions', None)
+        c.pop('neighbour_quits', None)
+    c['process_hashseeds'] = draw(st.lists(st.sampled_from([1, 2, 77, 4242, None]), min_size=2, max_size=3, unique=True))
+    return c
+
+
+def run_processes(rec, seed, shard, nshards, tier):
+    n = {'quick': 4, 'thorough': 60}[tier]
+    core.hyp_run(rec, prop_hist, process_cases(), n, seed, shrink=(tier == 'thorough'))
+
+
 PARTS = [
     Part('regression_f15', run_regress, prop_hist, {'quick': 1, 'thorough': 1}),
     Part('every_position', run_every, prop_every, {'quick': 8, 'thorough': 16}),
     Part('histories', run_hist, prop_hist, {'quick': 6, 'thorough': 16}),
+    Part('separate_processes', run_processes, prop_hist, {'quick': 3, 'thorough': 8}),
 ]
